@@ -120,8 +120,8 @@ class Sorts:
         if kind[0] == 'set':
             return z3.SetSort(self.sort_of(kind[1]))
         if kind[0] == 'map':
-            # a map is a pair of arrays; only used through MapV, but give it an array sort for values
-            return z3.ArraySort(self.sort_of(kind[1]), self.sort_of(kind[2]))
+            # finite map: array into an option type, absent keys are none
+            return z3.ArraySort(self.sort_of(kind[1]), self.opt_sort(kind[2]))
         if kind[0] == 'opt':
             return self.opt_sort(kind[1])
         if kind[0] == 'tuple':
